@@ -78,15 +78,21 @@ TEMPLATES = {
     "failing": "{% increment c %}{% cycle 1, 2 %}{% assign a = 1 %}{{ 7 | divided_by: z }}{% increment c %}",
     "date_int": "{{ 1 | date: '%Y' }}{{ '86400' | date: '%j' }}",
     "date_float": "{{ 1.0 | date: '%Y' }}",
+    "date_tz": "{{ d | date: '%H:%M %z' }}|{{ d | date: '%H' }}",
     "macro_render": "{% macro mr x %}{% render 'p', who: x %}{% endmacro %}{% call mr 'm' %}{% for i in arr limit: 1 %}{% call mr i %}{% endfor %}",
     "render_extends": "{% render 'leaf', g: g %}{% for i in arr limit: 1 %}{% render 'leaf' %}{% endfor %}",
     "drops": "{{ h.a }}{% for i in arr %}{{ i }}{% increment c %}{% endfor %}{{ h.b.c }}{% cycle 1, 2 %}",
 }
 TNAMES = sorted(TEMPLATES)
 
+import datetime as _dt  # noqa: E402
+
+# `d`: the same instant in two time zones (the two datetimes are equal and hash alike, and are displayed differently)
 DATA = [
-    {"g": 1, "arr": [1, 2, 3], "who": "A", "z": 0, "h": {"a": "ha", "b": {"c": "hc"}}},
-    {"g": "two", "arr": ["x", "y"], "who": "B", "z": 7, "h": {"a": 5, "b": {"c": 6}}},
+    {"g": 1, "arr": [1, 2, 3], "who": "A", "z": 0, "h": {"a": "ha", "b": {"c": "hc"}},
+     "d": _dt.datetime(2024, 1, 1, 12, 0, tzinfo=_dt.timezone.utc)},
+    {"g": "two", "arr": ["x", "y"], "who": "B", "z": 7, "h": {"a": 5, "b": {"c": 6}},
+     "d": _dt.datetime(2024, 1, 1, 17, 30, tzinfo=_dt.timezone(_dt.timedelta(hours=5, minutes=30)))},
 ]
 
 
@@ -204,7 +210,7 @@ class World:
             from liquid2 import CachingFileSystemLoader
             from liquid2 import Environment
 
-            d = tempfile.mkdtemp(prefix="verif_c09_")
+            d = tempfile.mkdtemp(prefix="verif_c09_", dir=seams.sandbox_base())
             self._fs = {"dir": d, "env": Environment(loader=CachingFileSystemLoader(d)), "version": 0, "mtime": 1_600_000_000.0}
             self.fs_write(1, +0.0)
             import weakref
